@@ -76,6 +76,8 @@ void harness(void){
   g_pkt=pkt; g_pktlen=len;
   int usenull=vt_range(0,1); int fec=vt_range(0,1);
   int frame_size=vt_range(0,6*F20+3);
+  /* stated bound: the "no packet decoded yet" path (prev_mode==0: a plain zero-fill loop over the request) only for requests up to 20 ms */
+  __CPROVER_assume((st->prev_redundancy?MODE_CELT_ONLY:st->prev_mode)!=0 || frame_size<=F20);
   g_cap=frame_size*st->channels; g_pcm=(float*)vt_alloc(sizeof(float)*g_cap);
   int fs0=st->frame_size, mode0=st->mode, pm0=st->prev_mode, pr0=st->prev_redundancy;
   int r=opus_decode_frame(st, usenull?(const unsigned char*)0:pkt, usenull?0:len, g_pcm, frame_size, fec);
